@@ -1,8 +1,8 @@
-\* liveness: every subscription goroutine is eventually told after ServeHTTP returned (weak fairness); no VIEW
+\* liveness: every subscription goroutine is eventually told after ServeHTTP returned (weak fairness); no VIEW; 1 subscription
 CONSTANTS
-  FrameAlphabet <- FramesEnd
+  FrameAlphabet <- FramesLive
   MaxFrames = 2
-  MaxSubs = 2
+  MaxSubs = 1
   MaxNotes = 1
   MaxEntries = 2
   PoolSize = 2
@@ -12,6 +12,7 @@ CONSTANTS
   WriteMutex = TRUE
   WaitActivation = TRUE
   FixNonRequest = FALSE
+  FixCloseReason = FALSE
 SPECIFICATION FairSpec
 PROPERTIES PAllTold
 CHECK_DEADLOCK FALSE
